@@ -8,10 +8,10 @@ PROP = dict(
     harness_bin="c36",
     mismatch_is_violation=True,
     rule="host calls through the bindings that abra_core::generate_host_function_enum generates (run by the build script of "
-         "harness/c36gen on every build) for a fixed signature file: 46 #host functions of arity 0-4 over int, float, bool, "
+         "harness/c36gen on every build) for a fixed signature file: 54 #host functions of arity 0-4 over int, float, bool, "
          "string, void, option, result, array, tuples of width 2-4, three #host structs (two void fields) and two #host enums "
          "(bare, one-field, two-field and array payload variants), nested to depth 3; per signature (quick) 7 / (thorough) 120 "
-         "cases with seeded random argument values (written as Abra literals) and an independent random result value (incl. "
+         "cases with seeded random argument values (written as Abra literals; in 2 of 5 cases half of all arrays, strings and options are empty/none so that empty values sit beside non-empty siblings among the arguments and inside arrays, tuples and structs) and an independent random result value (incl. "
          "non-finite floats, empty arrays, multibyte strings); each case is one Abra program compiled and run by the real "
          "compiler and VM, whose host call is served with the generated HostFunctionArgs::from_vm / HostFunctionRet::into_vm; "
          "compared with the model: the arguments the host read (parameter order), the text the Abra program prints for the "
@@ -26,7 +26,7 @@ PROP = dict(
     ],
     assumptions=[
         "signatures are built from the supported types only (functions, polymorphic and wildcard types are rejected by name_of_ty with a *NotSupported name)",
-        "the quantifier over signatures is carried by the induction on types in the theorems; the correspondence samples it on the fixed 46-signature file",
+        "the quantifier over signatures is carried by the induction on types in the theorems; the correspondence samples it on the fixed 54-signature file",
     ],
     design_ref="DESIGN.md §6 C36",
     level_text="Theorems by induction on the type, for all values and all stacks, about a model of VmType::{to_vm,from_vm}, the generated #host struct/enum "
